@@ -543,7 +543,16 @@ def build(spec, env):
                 obj = SConv(env, oid, capacity=e["capacity"], delay=e["delay"], accumulating=e["acc"])
             obj._spec = e
             m.edges[oid] = obj
+    # the order in which a node's edges were declared: the lists given to its constructor, otherwise the order of the connect calls
+    m.declared_out, m.declared_in = {}, {}
     for eid in spec["connect_order"]:
+        m.declared_out.setdefault(edesc[eid]["src"], []).append(eid)
+        m.declared_in.setdefault(edesc[eid]["dst"], []).append(eid)
+    corder = list(spec["connect_order"])
+    if ctor:
+        # the constructor lists fix the edge order; the connect calls may then come in any order
+        random.Random(spec.get("seed", 0) ^ 0xC0FFEE).shuffle(corder)
+    for eid in corder:
         e = edesc[eid]
         m.edges[eid].connect(m.nodes[e["src"]], m.nodes[e["dst"]])
     return m
